@@ -34,6 +34,9 @@ class Automaton:
         self.idx = {}
         self.trans = []
         self.reach = {}
+        # colours an *other* object handed to a mutator operation can have: those of the reachable states of the same
+        # phase in which the mutator can name the object (grows with the exploration; joint fixpoint)
+        self.present = {ph: {"strong": set(), "weak": set()} for ph in ("Sleep", "Mark", "Sweep")}
         self.problems = []  # (invariant, op-key, text, path)
         self._index()
         self._explore()
@@ -96,6 +99,13 @@ class Automaton:
             res.append((dst, out, out.kind))
         return res
 
+    @staticmethod
+    def accessible(s):
+        (ph, col, live, nt, q, cred, reg) = s
+        strong_ok = live == 1 and not (ph == "Sweep" and reg == "pend" and col != "B")
+        weak_ok = not (ph == "Sweep" and reg == "pend" and col not in ("B", "WW"))
+        return strong_ok, weak_ok
+
     def succ(self, s):
         (ph, col, live, nt, q, cred, reg) = s
         out = []
@@ -106,8 +116,8 @@ class Automaton:
                     dst = fix(dst, o)
                 out.append(Trans(s, op, dst, o.ev, kind, row))
 
-        strong_ok = live == 1 and not (ph == "Sweep" and reg == "pend" and col != "B")
-        weak_ok = not (ph == "Sweep" and reg == "pend" and col not in ("B", "WW"))
+        strong_ok, weak_ok = self.accessible(s)
+        others_strong = self.present[ph]["strong"]
 
         # ---- phase protocol (validated against do_collection's MIR by the C08 check)
         if ph == "Sleep":
@@ -145,17 +155,23 @@ class Automaton:
             add("mutator:backward_barrier(parent=x,child=None)",
                 self.row("backward_barrier", phase=ph, P=col, Pnt=nt, child="None"))
             for cc in ("W", "WW", "G", "B"):
+                if cc not in others_strong:
+                    continue
                 add("mutator:backward_barrier(parent=x,child=%s)" % cc,
                     self.row("backward_barrier", phase=ph, P=col, Pnt=nt, child="other:%s:1" % cc))
                 add("mutator:backward_barrier_weak(parent=x,child=%s)" % cc,
                     self.row("backward_barrier_weak", phase=ph, P=col, Pnt=nt, child="other:%s:1" % cc))
             for par in ("None", "W", "WW", "G", "B", "alias"):
+                if par not in ("None", "alias") and par not in others_strong:
+                    continue
                 add("mutator:forward_barrier(parent=%s,child=x)" % par,
                     self.row("forward_barrier", phase=ph, C=col, Cnt=nt, Clive=live, parent=par), subject=2)
             if ph == "Mark":
                 add("mutator:resurrect", self.row("resurrect", phase=ph, colour=col, live=live, nt=nt))
         if weak_ok:
             for par in ("None", "W", "WW", "G", "B"):
+                if par != "None" and par not in others_strong:
+                    continue
                 add("mutator:forward_barrier_weak(parent=%s,child=x)" % par,
                     self.row("forward_barrier_weak", phase=ph, C=col, Cnt=nt, Clive=live, parent=par), subject=2)
             add("mutator:upgrade", self.row("upgrade", phase=ph, colour=col, live=live, nt=nt))
@@ -168,10 +184,26 @@ class Automaton:
             for nt in (0, 1):
                 init.append((ph, "W", 1, nt, "-", 0, "out"))
         work = collections.deque()
+        def note(s):
+            so, wo = self.accessible(s)
+            grew = False
+            if so and s[1] not in self.present[s[0]]["strong"]:
+                self.present[s[0]]["strong"].add(s[1])
+                grew = True
+            if wo and s[1] not in self.present[s[0]]["weak"]:
+                self.present[s[0]]["weak"].add(s[1])
+            if grew:
+                # a new colour another object can have in this phase: states of the phase get new operations
+                for r in list(self.reach):
+                    if r[0] == s[0] and r != s:
+                        work.append(r)
         for s in init:
             self.reach[s] = None
             work.append(s)
+        for s in init:
+            note(s)
         seen_prob = set()
+        seen_trans = set()
         while work:
             s = work.popleft()
             nprob = len(self.problems)
@@ -181,6 +213,10 @@ class Automaton:
                 inv, op, text, st = self.problems[i]
                 self.problems[i] = (inv, op, text, self.path_to(s))
             for t in ts:
+                tk = (t.src, t.op, t.dst, t.kind, id(t.row))
+                if tk in seen_trans:
+                    continue
+                seen_trans.add(tk)
                 self.trans.append(t)
                 self.check_transition(t)
                 if t.dst in ("FREED", "UNLINKED"):
@@ -188,6 +224,7 @@ class Automaton:
                 if t.dst not in self.reach:
                     self.reach[t.dst] = t
                     work.append(t.dst)
+                    note(t.dst)
         for s in self.reach:
             self.check_state(s)
         # dedupe
@@ -215,9 +252,20 @@ class Automaton:
             self.problems.append(("S7", "state", "reachable state with colour=%s queued=%s (Gray <=> queued)" % (col, q),
                                   self.path_to(s) + [str(s)]))
         if ph in ("Sweep", "Sleep") and (col == "G" or q != "-"):
-            self.problems.append(("S2", "state", "reachable state with a Gray/queued object in phase %s: sweeping "
-                                  "started before marking was complete" % ph, self.path_to(s) + [str(s)]))
-        if ph == "Sleep" and col != "W":
+            if ph == "Sweep" and reg == "pend":
+                self.problems.append(("S2", "state", "reachable state with a Gray/queued object in front of the sweep cursor: "
+                                      "sweeping started before marking was complete", self.path_to(s) + [str(s)]))
+            else:
+                # marked (and queued) outside the mark phase, behind the cursor: the object is traced by the next
+                # cycle and merely retained longer - exactness (C02), not safety
+                self.problems.append(("S2o", "state", "object marked Gray / queued in phase %s outside the sweep snapshot: it "
+                                      "starts the next cycle marked and is retained although unreachable" % ph,
+                                      self.path_to(s) + [str(s)]))
+        if ph == "Sleep" and col == "B" and live == 1 and nt == 0:
+            # a Black object whose type holds no pointers loses no children by not being traced again: retention only
+            self.problems.append(("S3o", "state", "pointer-free object is B while the collector sleeps: it is retained for "
+                                  "another cycle although it may be unreachable", self.path_to(s) + [str(s)]))
+        elif ph == "Sleep" and col not in ("W", "G"):
             # a live object that is not White when a cycle starts is never traced (safety, S3); a value-less shell
             # that is not White is merely never released (reclamation, S3r)
             # WhiteWeak at the start of a cycle is treated like White by strong tracing (no safety problem); the
